@@ -232,7 +232,10 @@ func (s *Subscription) Loaded(resourceSub *rescache.ResourceSubscription, err er
 			s.collectRefs(rcb)
 		}
 	}) {
-		if err == nil {
+		// The connection is disposing. A subscription that was loaded before
+		// (the cache may announce a shared query resource twice, see above)
+		// releases its resource when it is disposed of.
+		if err == nil && s.flags&flagLoaded == 0 {
 			resourceSub.Unsubscribe(s)
 		}
 	}
